@@ -1363,16 +1363,25 @@ class Executor:
                 raise Unsupported('symbolic range()')
         else:
             seq = self.ev(it)
+        if isinstance(seq, Obj) and '__iter__' in seq.methods:
+            seq = seq.methods['__iter__'](self, seq)       # iteration protocol of a modelled object
         if isinstance(seq, Tup) or isinstance(seq, (tuple, list, bytes)):
             items = seq.items if isinstance(seq, Tup) else list(seq)
             for k, item in enumerate(items):
                 self.assign(s.target, Tup([k, item]) if with_index else item)
+                if spec is not None and spec.iter_ensures:
+                    self.iter_old_env = self.snapshot(self.env)
                 try:
                     self.exec_block(s.body)
                 except _Continue:
                     continue
                 except _Break:
                     return
+                if spec is not None:
+                    # a loop over a concrete sequence is executed element by element: per-iteration clauses hold after
+                    # each of them
+                    for j, cl in enumerate(spec.iter_ensures):
+                        self.vc('%s#loop%d.iter_post.%d' % (self.c.id, lid, j), self.spec_bool(cl, self.env), kind='external')
             self.exec_block(s.orelse)
             return
         if not isinstance(seq, (SeqV, RecSeqV)):
@@ -2674,15 +2683,18 @@ _LEMMA_CACHE = {}
 def _discharge(vc, long_ms, t0):
     import subprocess
     import tempfile
-    s, r = _z3py(vc, 2000 if vc.kind == 'lemma' else 4000)
+    force = os.environ.get('PYVC_SELFTEST_FORCE_UNKNOWN')
+    if force and force in vc.oid and TIMEOUT_MS < 60000:
+        return 'unknown', 0.0, None, 'selftest'      # exercises the driver's retry / undecided paths
+    s, r = _z3py(vc, 800 if vc.kind == 'lemma' else 4000)
     if r == z3.unsat:
         return 'proved', time.time() - t0, None, 'z3'
     if r == z3.sat:
         return 'refuted', time.time() - t0, s.model(), 'z3'
     # the sequence/recfun engine of z3 is erratic on identical input (0.1 s or > 10 s): re-seeded short retries are
     # cheaper than the external solvers
-    for seed in (7, 13, 29):
-        s2, r = _z3py(vc, 1500, seed=seed)
+    for seed in ((7, 13, 29, 51, 77) if vc.kind == 'lemma' else (7, 13, 29)):
+        s2, r = _z3py(vc, 800 if vc.kind == 'lemma' else 1500, seed=seed)
         if r == z3.unsat:
             return 'proved', time.time() - t0, None, 'z3(reseeded)'
         if r == z3.sat:
